@@ -1,25 +1,34 @@
 """C15 bounded stand-in: malformed input is reported (never a table), with the right line number.
 
 For every format F in {fastq, two-line fasta, wrapped fasta, bed3, bed6, bedGraph, narrowPeak, vcf, sam, gtf, gff,
-csv table with header line (get_bufferclass_for_datatype)} a well-formed file of N records of unequal widths is generated from
-the format's grammar; ONE violation of one class is injected at record position q (every q):
+csv table with header line (get_bufferclass_for_datatype)} a well-formed file of N records of unequal widths is
+generated from the format's grammar; ONE violation is injected at record position q (every q):
 
-  marker      FASTA/FASTQ record whose header line does not start with the record marker
-  plus        FASTQ record whose third line is not a '+' line (replaced / empty / prefixed / deleted)
-  nonnumeric  a non-numeric value in an int / float column (bad character x placement in the field x column)
-  alphabet    a character outside the alphabet of an alphabet-encoded column (strand, DNA)
-  colcount    a line with a different number of columns (one missing / one extra / blank line)
+  marker      FASTA/FASTQ record whose header line does not start with the record marker (replaced, dropped, other
+              marker, empty line, space before it; wrapped fasta: first record only - later ones are continuation lines)
+  plus        FASTQ record whose third line is not a '+' line (replaced / empty / prefixed / the line deleted)
+  nonnumeric  a non-numeric value in an int / Optional[int] / float column: bad character {letter, '0'+32 image, space,
+              punctuation} x placement {first, last, whole field} x column; empty field; lone sign; sign inside; float:
+              lone '.', two '.', dangling / leading / non-numeric exponent
+  alphabet    a character outside the alphabet of an alphabet-encoded column (strand, DNA) x placement
+  colcount    a line with a different number of columns (one missing at the end / in the middle, one extra at the end /
+              in the middle, blank line); SAM: fewer than the 11 mandatory columns only
 
 and the file is read through the public API  bnp.open(path, buffer_type=.., lazy=..)  with
-  {read(), read_chunks(min_chunk_size=cs) for every cs = 1 .. len(data)+2}  x {eager, lazy (+materialise)} x {plain, gzip}.
+  {read(), read_chunks(min_chunk_size=cs)} x {eager, lazy + get_data_object()} x {plain, gzip}.
+Phase A sweeps the key variants over every chunk size cs = 1 .. len+2 (quick tier: record boundaries +-1, record
+lengths, 1, 2, len-1 .. len+1), A2 a letter in every numeric / alphabet column, B every variant with read() and
+three chunk sizes (each record its own chunk / two records / whole file).
 
-Contracts (oracle = the property statement; the expected line is computed from the generator's own bookkeeping:
-number of data lines before the offending line, counted from the first data line after the header):
-  reported      an exception is raised and no table containing record q was delivered before it
+Contracts (oracle = the property statement; the expected line is computed from the generator's own bookkeeping: number
+of data lines before the offending line, counted from the first data line after the header):
+  reported      an exception is raised and no table containing record q was handed out before it
   line-number   a FormatException carries line_number == zero-based line of the offending line of record q
+                (column-count violations are not diagnosed as such by the library: a FormatException that a misaligned
+                parse produces for some other line is reported under its own signature)
   same-kind     if a violation is reported as FormatException in one configuration it is in every configuration
                 (otherwise the reported line number is not "identical for every chunk size and lazy/eager")
-  baseline      the well-formed file (no violation) reads without error (guards the generator, not the library)
+  baseline      the well-formed file (no violation) is accepted (guards the generator, not the library)
 """
 import gzip
 import logging
@@ -422,8 +431,10 @@ class FileUnderTest:
                     self.local_deltas.add(delta)
                 if not v["diagnosed"]:
                     sig = "%s:format-exception-with-other-line:%s" % (ident, fam)
-                elif self.mixed_exp and (first or delta in self.local_deltas):
-                    sig = "nonnumeric:float-column-mixing-exponent-and-plain-values:wrong-line-number:%s:within-chunk" % fam
+                elif self.mixed_exp:
+                    # one defect region: the float parser handles the rows with and without exponent separately and
+                    # the error offset is relative to that subset of rows (whichever rows share a chunk)
+                    sig = "nonnumeric:float-column-mixing-exponent-and-plain-values:wrong-line-number:%s" % fam
                 elif first or delta in self.local_deltas:
                     # wrong in the whole-file read where no chunk offset exists (or: wrong by the same amount as there)
                     sig = "%s:wrong-line-number:%s:within-chunk" % (ident, fam)
@@ -455,19 +466,21 @@ class FileUnderTest:
 
 def chunk_sizes(fmt, data, n, plan):
     L = len(data) - len(fmt.header)
-    if plan == "all":
+    if plan == "all" and L <= 110:
         return list(range(1, L + 3))
     body = data[len(fmt.header):]
     nl = [i + 1 for i, b in enumerate(body) if b == 10]
     step = max(fmt.lpr, 1)
     bounds = nl[step - 1::step] if fmt.kind != "multiline" else nl
-    if plan == "boundaries":
+    if plan in ("boundaries", "all"):
         # record boundaries and their neighbours, single record lengths, the smallest sizes, the whole file and beyond
         s = {1, 2, L - 1, L, L + 1}
         prev = 0
         for b in bounds:
             s.update((b - 1, b, b + 1, b - prev))
             prev = b
+        if plan == "all":            # long files: every second size in addition to the boundary neighbourhoods
+            s.update(range(1, L + 3, 2))
         return sorted(x for x in s if 1 <= x <= L + 2)
     # "few": every record its own chunk / about two records per chunk / everything in one chunk
     return sorted({1, min(L + 1, (bounds[min(1, len(bounds) - 1)] if bounds else L) + 1), L + 1})
@@ -509,7 +522,7 @@ def run(tier="quick", seed=0):
                     "per format: well-formed file of N records of unequal widths, ONE violation (class x variant) injected at every "
                     "record position q; read with read() and read_chunks(cs) x {eager, lazy+materialise} x {plain, gzip}. "
                     "Phase A: key variants (one per class and column kind) x chunk sizes " +
-                    ("{record boundaries +-1, record lengths, 1, 2, len-1..len+1}" if quick else "1..len+2 (all)") +
+                    ("{record boundaries +-1, record lengths, 1, 2, len-1..len+1}" if quick else "1..len+2 (all; files longer than 110 bytes: every second size + boundary neighbourhoods)") +
                     "; phase A2: a letter in every numeric/alphabet column, every marker/plus variant x boundary chunk sizes; "
                     "phase B: every variant (bad character x placement x column) x read() + 3 chunk sizes" +
                     (" (seeded sample within the time budget)" if quick else "") +
@@ -517,7 +530,7 @@ def run(tier="quick", seed=0):
                     budget_s=52 if quick else 560)
     col.per_format = {}
     col.bounds = {"formats": sorted(FORMATS), "records_N": n, "positions_q": "0..N-1 (wrapped fasta: 0)",
-                  "chunk_sizes_A": "boundaries+-1, record lengths, 1, 2, len-1..len+1" if quick else "1..len+2",
+                  "chunk_sizes_A": "boundaries+-1, record lengths, 1, 2, len-1..len+1" if quick else "1..len+2 (len > 110: every 2nd + boundaries+-1)",
                   "chunk_sizes_A2": "boundaries+-1, record lengths, 1, 2, len-1..len+1",
                   "chunk_sizes_B": "1, first two records + 1, len+1", "lazy": [False, True], "gzip": [False, True],
                   "bad_characters": {"int": "x P ' ' ; . ABC '' - + 1-2", "float": "x P ' ' ; - ABC '' - + 1-2 . 1.2.3 2e- and exponent forms 1e e1 twenty 1ex", "strand": "x K 1 ' ' *",
